@@ -172,6 +172,9 @@ func Replay(tr *Trace, opts RunOpts) (res *RunResult) {
 			res.Internal = err
 			break
 		}
+		if DebugReplay && DebugFrom > 0 && c.Height() >= DebugFrom {
+			DebugState(c)
+		}
 		pj, _ := json.Marshal(p0)
 		if len(c.Blocks) > 0 {
 			b := c.Blocks[len(c.Blocks)-1]
@@ -207,6 +210,9 @@ func Replay(tr *Trace, opts RunOpts) (res *RunResult) {
 
 // DebugReplay makes Replay print the final committed state.
 var DebugReplay bool
+
+// DebugFrom: print the state after every block from this height on.
+var DebugFrom int64
 
 // sanitizePlan makes an edited plan executable: heights renumbered, voters/exec restricted to nodes
 // that are actually able (the minimiser may have deleted the crash/restart that the original relied on).
